@@ -161,18 +161,51 @@ theorem runOp_join (w : World) (c : TCtl) (b : Nat) :
       | _ => pure (w.complete .unit)) := rfl
 
 /-- the epilogue of a spawned thread `t ≠ 0` whose `JoinHandle` notify is `n`, before the common
-tail (`fin < 10`): the branch point of `notify`, then its effect; the thread then enters the tail
-`finishThread` (`fin := 10`: `drop_locals`, the destructors, `thread_done`) -/
+tail (`fin < 10`), since the repair of finding F20: FIRST `drop_locals` (`fin = 0`, continues at `fin = 4`)
+and the loop of the destructors' stores (`fin = 4`: head, `fin = 5`: effect of a store; `dropPass … 3`);
+when the queue of destructors is empty the branch point of `notify` (`fin := 1`), then its effect
+(`fin = 1`); the thread then enters the tail `finishThread` (`fin := 10`: second `drop_locals`, its
+destructors, `thread_done`) -/
 theorem runEpilogue_spawned (w : World) (c : TCtl) (b n : Nat) (ht : w.tid ≠ 0)
     (hs : w.spawned.find? (·.2.1 == w.tid) = some (b, w.tid, n)) (hlt : c.fin < 10) :
     w.runEpilogue c =
-      if c.fin == 0 then (w.modCtl w.tid fun c => { c with fin := 1 }).branch n .opaque
+      if c.fin == 0 then .ok (w.dropLocals.modCtl w.tid fun c => { c with fin := 4 })
+      else if 3 ≤ c.fin then
+        w.dropPass c 3 fun w1 => (w1.modCtl w.tid fun c => { c with fin := 1 }).branch n .opaque
       else (do
         let w1 ← w.notifyEffect n
         pure (w1.modCtl w.tid fun c => { c with fin := 10 })) := by
   unfold World.runEpilogue
   have : ¬ c.fin ≥ 10 := by omega
-  simp [ht, hs, this, bind, Except.bind]
+  simp only [ht, hs, this, bind, Except.bind, beq_iff_eq, if_false]
+  split
+  · simp [World.dropPass, pure, Except.pure]
+  · rfl
+
+/-- one pass of `drop_locals`, spelled out by stage -/
+theorem dropPass_eq (w : World) (c : TCtl) (base : Nat) (done : World → Except Panic World) :
+    w.dropPass c base done =
+      if c.fin = base then .ok (w.dropLocals.modCtl w.tid fun c => { c with fin := base + 1 })
+      else if c.fin = base + 1 then
+        (match c.dtorQueue with
+        | [] => done w
+        | k :: _ =>
+          (w.modCtl w.tid fun c => { c with fin := base + 2 }).primStart 0
+            (.store (10 + (k : Int)) .rlx) c.stage)
+      else
+        (match c.dtorQueue with
+        | [] => .error (.internal 84)
+        | k :: rest => do
+          let (w1, _) ← w.primEffect 0 (.store (10 + (k : Int)) .rlx)
+          pure (w1.modCtl w.tid fun c => { c with fin := base + 1, dtorQueue := rest })) := by
+  obtain ⟨body, pc, stage, prim, results, fin, guards, locals, q⟩ := c
+  unfold World.dropPass
+  simp only [beq_iff_eq, bind, Except.bind, pure, Except.pure]
+  split
+  · rfl
+  · split
+    · cases q <;> rfl
+    · cases q <;> rfl
 
 /-- the epilogue of the main thread before the common tail: `lazy_statics.drop()` -/
 theorem runEpilogue_main (w : World) (c : TCtl) (ht : w.tid = 0) (hlt : c.fin < 10) :
